@@ -31,4 +31,23 @@ def specRoot (H : α → α → α) (leaf : α) (index : Nat) : List α → α
   | sib :: rest =>
     specRoot H (if index % 2 = 1 then H sib leaf else H leaf sib) (index / 2) rest
 
+/-- a binary Merkle tree (used to state completeness of branch verification) -/
+inductive Tree (α : Type) where
+  | leaf : α → Tree α
+  | node : Tree α → Tree α → Tree α
+
+def Tree.root (H : α → α → α) : Tree α → α
+  | .leaf v => v
+  | .node l r => H (l.root H) (r.root H)
+
+/-- the leaf at `index` of a perfect tree of depth `d` with its siblings bottom-up (what a Merkle proof carries) -/
+def Tree.proof (H : α → α → α) : Tree α → (d : Nat) → (index : Nat) → Option (α × List α)
+  | .leaf v, 0, _ => some (v, [])
+  | .node l r, d + 1, idx =>
+    if (idx >>> d) % 2 = 1 then
+      (Tree.proof H r d idx).map (fun p => (p.1, p.2 ++ [l.root H]))
+    else
+      (Tree.proof H l d idx).map (fun p => (p.1, p.2 ++ [r.root H]))
+  | _, _, _ => none
+
 end Zrnt.Util.Merkle
